@@ -36,7 +36,7 @@ ASSUMPTIONS = ["pre-emption only at Python line boundaries inside pyjelly (not i
                "hash-seed clause applied to explicit sequences only (rdflib containers iterate in hash order by design)",
                "rdflib Graph/Dataset containers iterate in hash order by design, so only explicit sequences are used"]
 PROBES = ["shipped_statement_runs", "copied_statement_runs", "guessed_options_workloads", "namespace_workloads", "nested_steps", "coop_runs", "thread_runs", "subproc_runs", "shared_options", "neighbour_abandoned", "neighbour_failed",
-          "neighbour_unused", "thread_switches", "parse_workloads", "ser_workloads", "rdflib_workloads"]
+          "neighbour_unused", "thread_switches", "parse_workloads", "ser_workloads", "rdflib_workloads", "twin_parsers_equal_options"]
 SHRINK_LISTS = ["workloads"]
 
 
@@ -84,6 +84,14 @@ def generate(rng, run, tier):
         wl[1] = dict(wl[0], ops=list(reversed(wl[0]["ops"])), kind="ser")
         wl[0]["kind"] = "ser"
         wl[0]["shared"] = wl[1]["shared"] = True
+    elif n >= 2 and rng.random() < 0.3:
+        # two parsers over streams whose options rows are identical (same sizes, flags, types) but whose content
+        # differs: anything keyed or cached by the stream's options is shared between them if it is shared at all
+        import copy
+        wl[1] = copy.deepcopy(wl[0])
+        wl[1]["ops"] = [o for o in wl[0]["ops"] if o[0] == "ns"] + list(reversed([o for o in wl[0]["ops"] if o[0] != "ns"]))
+        wl[0]["kind"] = wl[1]["kind"] = "parse"
+        wl[0]["twin"] = wl[1]["twin"] = True
     neighbours = []
     if mode == "coop":
         for _ in range(rng.choice([0, 1, 2, 3])):
@@ -207,6 +215,8 @@ def coop_side(plan, sim):
             ghosts.append(nb)
     for i, w in enumerate(wl):
         sim.count("parse_workloads" if w["kind"] == "parse" else "ser_workloads")
+        if w.get("twin"):
+            sim.count("twin_parsers_equal_options")
         if w["cfg"]["integration"] == "rdflib":
             sim.count("rdflib_workloads")
         if w["kind"] == "ser":
